@@ -309,7 +309,16 @@ def _point_pred(u, fn, t, par, depth=0):
         p = _point_pred(u, fn, t[2], par, depth + 1)
         return ('acc' if p[0] == 'rej' else 'rej', p[1]) if p else None
     if t[0] == 'call' and t[1] == 'std::apply' and len(t[2]) == 2 and t[2][0][0] == 'lambda' and _sc(t[2][1]) == par:
-        lam = _lambda_of(u, fn)
+        lam = u.functions.get(t[2][0][1]) if len(t[2][0]) > 1 and t[2][0][1] else None      # the closure itself (it may come from an inlined helper)
+        if lam is None or not lam.body:
+            lam = _lambda_of(u, fn)
+        if lam is None:
+            # a generic closure that came with an inlined helper: its instantiation is named after that helper
+            rec = fn.qname.rsplit('::', 1)[0]
+            for hn in getattr(fn, 'inlined_from', None) or []:
+                c = [g for g in u.fns(hn + '::(lambda)::operator()') if g.qname.startswith(rec + '::')]
+                if len(c) == 1:
+                    lam = c[0]
         if lam is None:
             return None
         rets = lam.returns()
@@ -473,6 +482,11 @@ def rule_data_exact(ctx):
                 for c in g.calls(pred=lambda nd: nd.get('cn') in ('emplace_back', 'push_back', 'insert')):
                     o = g.n(c).get('obj')
                     if o and g.term(o, inline=False) == ('field', 'data', ('this',)):
+                        appends += 1
+                # an algorithm writing through std::back_inserter(data) / std::inserter(data, data.end()) appends as well
+                for c in g.calls(pred=lambda nd: nd.get('ct') in ('std::back_inserter', 'std::inserter')):
+                    a = g.n(c).get('args', [])
+                    if a and _sc(g.term(a[0], inline=False)) == ('field', 'data', ('this',)):
                         appends += 1
             ini = [i for i in f.d.get('inits', []) if i.get('field') == 'data']
             sized = False
